@@ -84,6 +84,11 @@ func NewNegotiator(cfg func(*Session, *StreamConfig) StreamConfig) Negotiator {
 type negotiatorState struct {
 	doRestart bool
 	cancelTee context.CancelFunc
+
+	// featuresRead is set once a features list has been negotiated on this
+	// session so that installing the tee (which consumes a negotiator round
+	// before any features are read) does not count as the first list.
+	featuresRead bool
 }
 
 func negotiator(f func(*Session, *StreamConfig) StreamConfig) Negotiator {
@@ -204,7 +209,8 @@ func negotiator(f func(*Session, *StreamConfig) StreamConfig) Negotiator {
 		}
 
 		cfg = f(s, &cfg)
-		mask, rw, err = negotiateFeatures(ctx, s, data == nil, websocket, cfg.Features)
+		mask, rw, err = negotiateFeatures(ctx, s, !nState.featuresRead, websocket, cfg.Features)
+		nState.featuresRead = true
 		nState.doRestart = rw != nil
 		return mask, rw, nState, err
 	}
